@@ -190,6 +190,8 @@ def make_absset(eng, st, name):
 
     def member(s, ent):
         ob = s.obj(r)
+        if isinstance(ent, U):
+            return zor(*[zand(g, member(s, b)) for g, b in ent.alts])
         if not isinstance(ent, R):
             return BF
         if ent.addr not in ob.meta["members"]:
@@ -202,7 +204,14 @@ def make_absset(eng, st, name):
     def setm(s, ent, val):
         ob = s.obj(r)
         mm = dict(ob.meta["members"])
-        mm[ent.addr] = val
+        for g, b in alts(ent):
+            if isinstance(b, R):
+                old = mm.get(b.addr)
+                if old is None:
+                    old = member(s, b)
+                    mm = dict(s.obj(r).meta["members"])
+                mm[b.addr] = val if z3.is_true(g) else z3.If(g, val, old)
+        ob = s.obj(r)
         ob.meta = dict(ob.meta)
         ob.meta["members"] = mm
         s.touch(ob)
@@ -364,15 +373,26 @@ def make_state(eng, st, providers):
             e_o.meta["initial"] = {"_ignored": e_o.fields["_ignored"], "_priority": e_o.fields["_priority"],
                                    0: dict(s_.obj(side_of(s_, e, 0)).fields), 1: dict(s_.obj(side_of(s_, e, 1)).fields)}
             assume_entry_invariants(eng_, s_, e)
+            # an entry that is in the index satisfies the pending-set rule (I4) to begin with
+            flags = []
+            for sd_ in (0, 1):
+                so_ = s_.obj(side_of(s_, e, sd_))
+                flags.append(zand(P.truth(s_, so_.fields["_changed"]), P.truth(s_, so_.fields["_oid"])))
+            s_.pending = []
+            cso = s_.obj(s_.obj(r).fields["_changeset_storage"])
+            mm = dict(cso.meta["members"])
+            mm[e.addr] = zor(*flags)
+            cso.meta = dict(cso.meta)
+            cso.meta["members"] = mm
             return e
         return gen_entry
 
     def gen_inner_for(side):
         def gen_inner(eng_, s_, key):
-            return s_.alloc(HObj("dict", "dict", meta={"open": True, "gen": gen_entry_for(side, key), "tag": "index-inner"}))
+            return s_.alloc(HObj("dict", "dict", meta={"open": True, "gen": gen_entry_for(side, key), "tag": "index-inner", "no_none_keys": True}))
         return gen_inner
-    fields["_oids"] = T([st.alloc(HObj("dict", "dict", meta={"open": True, "gen": gen_entry_for(i), "tag": "index"})) for i in (0, 1)])
-    fields["_paths"] = T([st.alloc(HObj("dict", "dict", meta={"open": True, "gen": gen_inner_for(i), "tag": "index"})) for i in (0, 1)])
+    fields["_oids"] = T([st.alloc(HObj("dict", "dict", meta={"open": True, "gen": gen_entry_for(i), "tag": "index", "no_none_keys": True})) for i in (0, 1)])
+    fields["_paths"] = T([st.alloc(HObj("dict", "dict", meta={"open": True, "gen": gen_inner_for(i), "tag": "index", "no_none_keys": True})) for i in (0, 1)])
     return r
 
 
